@@ -29,7 +29,7 @@ def fresh(d):
     shutil.copy('/verif/known_findings.json', d + '/verif/')
 q = queue.Queue()
 for i in range(N):
-    d = '/tmp/rg-%d' % i; fresh(d); q.put(d)
+    d = '/tmp/rg-%d-%d' % (os.getpid(), i); fresh(d); q.put(d)
 def check(d, pid):
     e = dict(ENV, CHESSLINT_REPO=d + '/repo', CHESSLINT_VERIF=d + '/verif')
     r = subprocess.run(['/verif/bin/chesslint', 'check', pid], capture_output=True, text=True, env=e)
@@ -75,4 +75,4 @@ with ThreadPoolExecutor(N) as ex:
     for line in ex.map(one, items):
         print(line, flush=True)
 for i in range(N):
-    shutil.rmtree('/tmp/rg-%d' % i, ignore_errors=True)
+    shutil.rmtree('/tmp/rg-%d-%d' % (os.getpid(), i), ignore_errors=True)
